@@ -17,8 +17,10 @@ type c03ReadCase struct {
 }
 
 type c03WriteCase struct {
-	Doc    ttmlDoc `json:"doc"`
-	Indent string  `json:"indent"` // "default" = no option given
+	// Foreign: the list carries metadata of other formats; the file-level helper is exercised as well
+	Foreign bool    `json:"foreign,omitempty"`
+	Doc     ttmlDoc `json:"doc"`
+	Indent  string  `json:"indent"` // "default" = no option given
 }
 
 func init() {
@@ -42,11 +44,14 @@ func checkC03Read(c c03ReadCase) string {
 	if m := diffTTML(c.Doc, got, "reader"); m != "" {
 		return fmt.Sprintf("%s\n--- document (%d bytes) ---\n%s", m, len(b), clip(string(b), 1200))
 	}
-	return ""
+	return rereadStable("ttml", b, readOpts{}, s)
 }
 
 func checkC03Write(c c03WriteCase) string {
 	s := toSubtitlesTTML(c.Doc)
+	if c.Foreign {
+		addForeignMetadata("ttml", s)
+	}
 	var buf bytes.Buffer
 	var err error
 	if c.Indent == "default" {
@@ -86,6 +91,11 @@ func checkC03Write(c c03WriteCase) string {
 	}
 	if m := diffTTML(want, ind, "independent decoder"); m != "" {
 		return fmt.Sprintf("%s\n--- output ---\n%s", m, clip(string(out), 1200))
+	}
+	if c.Foreign {
+		if m := fileWriteAgrees("ttml", s); m != "" {
+			return m
+		}
 	}
 	return ""
 }
@@ -230,7 +240,7 @@ func TestC03(t *testing.T) {
 		verdict(rt, "C03", "c03read", c, checkC03Read)
 	})
 	rapidCheck(t, "C03/write", tier(1500, 150000), func(rt *rapid.T) {
-		c := c03WriteCase{Doc: genTTMLDoc(rt, true), Indent: rapid.SampledFrom([]string{"default", "", "\t", "  "}).Draw(rt, "indentopt")}
+		c := c03WriteCase{Doc: genTTMLDoc(rt, true), Indent: rapid.SampledFrom([]string{"default", "", "\t", "  "}).Draw(rt, "indentopt"), Foreign: rapid.IntRange(0, 2).Draw(rt, "foreign") == 0}
 		addEmptyLines(rt, &c.Doc)
 		nt, ls := c03Labels(c.Doc, nil)
 		ev.Case(nt, fmt.Sprintf("w%v", c), append(ls, "write")...)
